@@ -11,11 +11,16 @@ Local Open Scope char_scope.
 
 Record case := {
   c_rules : list rule; c_dflt : bool; c_host : string; c_raw : string; c_raw2 : string; c_query : string;
-  o_a : outcome; o_auri : string; o_b : outcome; o_buri : string }.
+  o_a : outcome; o_auri : string; o_b : outcome; o_buri : string;
+  (* the same two requests, sent again to the same repository after other requests (the decoded and the
+     double-encoded twin of the path, a miss), got the same answers as on the fresh repository *)
+  o_stable : bool }.
 
-Definition c8 rs d h r r2 q oa ua ob ub :=
+Definition c8 rs d h r r2 q oa ua ob ub st :=
   {| c_rules := rs; c_dflt := d; c_host := h; c_raw := r; c_raw2 := r2; c_query := q;
-     o_a := oa; o_auri := ua; o_b := ob; o_buri := ub |}.
+     o_a := oa; o_auri := ua; o_b := ob; o_buri := ub; o_stable := st |}.
+Definition px v := PExact v.
+Definition pt t := PTable t.
 Definition rt p ps := {| rt_pat := p; rt_params := ps |}.
 Definition rwr s c a q := {| rw_scheme := s; rw_cut := c; rw_add := a; rw_strip_q := q |}.
 Definition be h r := {| b_host := h; b_rw := r |}.
@@ -46,37 +51,45 @@ Definition off_ok (rules : list rule) (raw : string) (o : outcome) : bool :=
   | _ => true
   end.
 
-Definition spec_capture (st : setting) (v : string) : string :=
-  match st with NoDecode => decode_keep_slash v | _ => unescape_or_empty v end.
-
-(** every captured value is the decoding (per setting) of a piece of the request path *)
+(** every captured value is the decoding (per setting) of the segment at the
+    wildcard's position — for one of the path expressions of the matched rule *)
 Definition caps_ok (rules : list rule) (raw : string) (o : outcome) : bool :=
   match o with
   | Accepted rid false cs _ =>
     match rule_of rules rid with
-    | Some r => forallb (fun kv => existsb (fun v => String.eqb (snd kv) (spec_capture (r_setting r) v)) (pieces raw)) cs
+    | Some r =>
+      existsb (fun t => match route_caps (rt_pat t) (segs_of raw) with
+                        | Some exp => list_eqb cap_eqb
+                                        (sort_caps (map (fun kv => (fst kv, spec_capture (r_setting r) (snd kv))) exp))
+                                        (sort_caps cs)
+                        | None => false
+                        end) (r_routes r)
     | None => false
     end
+  | Accepted _ true cs _ => is_nil cs
   | _ => true
   end.
 
-(** an encoded slash stays encoded in the upstream path under no_decode and is
-    decoded under on (rules that forward without rewriting) *)
+(** the path of the request line sent upstream (observed as URL.RequestURI()): under
+    `no_decode` the request path as it is, under `on` the decoded path in canonical
+    escaping — after the rule's prefix rewriting, if any.  Applies when the path has
+    an encoded slash and the expected path is one net/url writes unchanged. *)
 Definition up_ok (rules : list rule) (raw query : string) (o : outcome) (uri : string) : bool :=
   match o with
-  | Accepted rid false _ (Some u) =>
+  | Accepted rid false _ (Some _) =>
     match rule_of rules rid with
     | Some r =>
       match r_backend r with
       | Some b =>
-        if negb (enc_slash raw) || match b_rw b with Some _ => true | None => false end then true
-        else match r_setting r with
-             | NoDecode => String.eqb (u_rawpath u) raw &&
-                           String.eqb uri (if is_empty query then raw else raw ++ String "?" query)
-             | On => is_empty (u_rawpath u) && String.eqb (u_path u) (unescape_or_empty raw) &&
-                     negb (enc_slash (fst (cut_on "?" uri)))
-             | Off => true
-             end
+        let base := match r_setting r with
+                    | On => escape MPath (unescape_or_empty raw)
+                    | _ => raw
+                    end in
+        let exp := match b_rw b with Some rw => transform_path rw base | None => base end in
+        if enc_slash raw && valid_encoded exp && wellformed exp && negb (is_empty exp) &&
+           negb (setting_eqb (r_setting r) Off)
+        then String.eqb (fst (cut_on "?" uri)) exp
+        else true
       | None => true
       end
     | None => false
@@ -84,12 +97,32 @@ Definition up_ok (rules : list rule) (raw query : string) (o : outcome) (uri : s
   | _ => true
   end.
 
+(** the precondition answer: when every path expression that matches the path as it
+    is spelled belongs to an `off` rule, a path with an encoded slash is answered with
+    the precondition error (or, without default rule and with path_params on all of
+    them, possibly with "no rule") *)
+Definition live_routes (rules : list rule) (raw : string) : list (rule * route) :=
+  flat_map (fun r => map (fun t => (r, t)) (filter (fun t => rmatch (rt_pat t) (segs_of raw)) (r_routes r))) rules.
+
+Definition precond_ok (rules : list rule) (dflt : bool) (raw : string) (o : outcome) : bool :=
+  if enc_slash raw && valid_encoded raw && wellformed raw && has_prefix "/" raw &&
+     forallb (fun rt => setting_eqb (r_setting (fst rt)) Off) (live_routes rules raw)
+  then match o with
+       | Precondition => true
+       | BadRequest => true
+       | NoRule => negb dflt && forallb (fun rt => negb (is_nil (rt_params (snd rt)))) (live_routes rules raw)
+       | Accepted _ _ _ _ => false
+       end
+  else true.
+
 Definition prop (c : case) : bool :=
   (negb (equiv_paths (c_raw c) (c_raw2 c)) || same_decision (o_a c) (o_b c)) &&
   off_ok (c_rules c) (c_raw c) (o_a c) && off_ok (c_rules c) (c_raw2 c) (o_b c) &&
   caps_ok (c_rules c) (c_raw c) (o_a c) && caps_ok (c_rules c) (c_raw2 c) (o_b c) &&
   up_ok (c_rules c) (c_raw c) (c_query c) (o_a c) (o_auri c) &&
-  up_ok (c_rules c) (c_raw2 c) (c_query c) (o_b c) (o_buri c).
+  up_ok (c_rules c) (c_raw2 c) (c_query c) (o_b c) (o_buri c) &&
+  precond_ok (c_rules c) (c_dflt c) (c_raw c) (o_a c) && precond_ok (c_rules c) (c_dflt c) (c_raw2 c) (o_b c) &&
+  o_stable c.
 
 (** ** guards of the findings on the generated input (C08/Spec.v) *)
 
@@ -117,7 +150,7 @@ Definition g_F4 (c : case) : bool :=
 Definition g_F5 (c : case) : bool := guard_F5 (c_raw c) || guard_F5 (c_raw2 c).
 
 Definition check (fx : fixes) (c : case) : verdict :=
-  {| v_corr := corr1 fx c (c_raw c) (o_a c) (o_auri c) && corr1 fx c (c_raw2 c) (o_b c) (o_buri c);
+  {| v_corr := corr1 fx c (c_raw c) (o_a c) (o_auri c) && corr1 fx c (c_raw2 c) (o_b c) (o_buri c) && o_stable c;
      v_prop := prop c;
      v_guards := guards [(1%Z, g_F1 c); (2%Z, g_F2 c && negb (fx2 fx)); (3%Z, g_F3 c && negb (fx3 fx));
                          (4%Z, g_F4 c); (5%Z, g_F5 c && negb (fx5 fx))] |}.
@@ -140,13 +173,15 @@ Definition prop_envoy (c : case) : bool :=
   (negb (wellformed (c_raw c)) || caps_ok (c_rules c) (c_raw c) (o_a c)) &&
   (negb (wellformed (c_raw2 c)) || caps_ok (c_rules c) (c_raw2 c) (o_b c)) &&
   (negb (wellformed (c_raw c)) || up_ok (c_rules c) (c_raw c) (c_query c) (o_a c) (o_auri c)) &&
-  (negb (wellformed (c_raw2 c)) || up_ok (c_rules c) (c_raw2 c) (c_query c) (o_b c) (o_buri c)).
+  (negb (wellformed (c_raw2 c)) || up_ok (c_rules c) (c_raw2 c) (c_query c) (o_b c) (o_buri c)) &&
+  precond_ok (c_rules c) (c_dflt c) (c_raw c) (o_a c) && precond_ok (c_rules c) (c_dflt c) (c_raw2 c) (o_b c) &&
+  o_stable c.
 
 Definition g_F3_envoy (c : case) : bool :=
   guard_F3 (c_rules c) && (mem_ascii "%" (c_raw c) || mem_ascii "%" (c_raw2 c)).
 
 Definition check_envoy (fx : fixes) (c : case) : verdict :=
-  {| v_corr := corr1_envoy fx c (c_raw c) (o_a c) (o_auri c) && corr1_envoy fx c (c_raw2 c) (o_b c) (o_buri c);
+  {| v_corr := corr1_envoy fx c (c_raw c) (o_a c) (o_auri c) && corr1_envoy fx c (c_raw2 c) (o_b c) (o_buri c) && o_stable c;
      v_prop := prop_envoy c;
      v_guards := guards [(1%Z, g_F1 c); (2%Z, g_F2 c && negb (fx2 fx)); (3%Z, g_F3_envoy c && negb (fx3 fx));
                          (4%Z, g_F4 c); (5%Z, g_F5 c && negb (fx5 fx))] |}.
